@@ -369,8 +369,10 @@ dateutils_verif_probe(const char *site, long a, long b, long c, long d)
 			verif_fail(site, "transition-index-out-of-range", a, b, c, d);
 		}
 	} else if (!strcmp(site, "zif_offs_ret")) {
-		/* a = t, b = cache.prev, c = cache.next, d = 0 */
-		if (!(b <= a && a < c)) {
+		/* a = t, b = cache.prev, c = cache.next, d = trno
+		 * prev == next is the code's way of saying "before the first
+		 * transition, nothing to cache" (outside the property's domain) */
+		if (b != c && !(b <= a && a < c)) {
 			verif_fail(site, "cached-range-excludes-instant", a, b, c, d);
 		}
 	} else if (!strcmp(site, "tzm_rec")) {
